@@ -472,7 +472,17 @@ def validate_many(shard_traces, invs, wdir, seconds=None, **kw):
     def one(i_tp):
         i, tp = i_tp
         return validate_trace(tp, invs, os.path.join(wdir, "val-%d" % i), second=seconds[i] if seconds else None, **kw)
-    with ThreadPoolExecutor(max_workers=min(NCPU, max(1, len(shard_traces)))) as ex:
+    # as many JVMs as the memory that is available NOW allows (each may grow to its heap limit; the scratch directory of a
+    # thorough run is several GB of tmpfs as well): an out-of-memory kill would be an inconclusive run, never a verdict
+    par = min(NCPU, max(1, len(shard_traces)))
+    try:
+        with open("/proc/meminfo") as f:
+            avail = int(re.search(r"MemAvailable:\s+(\d+) kB", f.read()).group(1)) / 1e6
+        heap_gb = float(str(kw.get("heap", "3g")).rstrip("g"))
+        par = max(2, min(par, int(avail * 0.7 / (heap_gb + 0.5))))
+    except (OSError, AttributeError, ValueError):
+        pass
+    with ThreadPoolExecutor(max_workers=par) as ex:
         res = list(ex.map(one, enumerate(shard_traces)))
     failures, states, runs, hits = [], 0, 0, set()
     for f, s, r, h in res:
